@@ -976,10 +976,71 @@ def _edited_since(self, sim):
 rw.Node.edited_since = _edited_since
 
 
+# ---------------------------------------------------------------- sweep
+# Systematic part of C12 (the property text: "exhaustively up to a bounded
+# length over a small symbol alphabet, and randomly beyond"): every
+# (warm-up, edit, probe, volatile-state fault, lru capacity) combination of a
+# small catalogue on one custom registry with one prefixable symbol `foo`.
+# Same executor, same oracles, same replay format as the seeded runs.
+
+SWEEP_SPELLINGS = ["foo", "kfoo", "foo*s", "kfoo**2/s", "foo**2", "sqrt(foo)", "2*foo", "g*foo/s**2", "Mfoo", "foo/kfoo"]
+SWEEP_WARM = [None] + [(s_, r_) for s_ in SWEEP_SPELLINGS for r_ in ("unit", "quantity")]
+SWEEP_PROBE = [(s_, r_) for s_ in SWEEP_SPELLINGS for r_ in ("unit", "to")]
+SWEEP_EDITS = [
+    [{"k": "modify", "sym": "foo", "value": 3.0}],
+    [{"k": "modify_q", "sym": "foo", "v": 2.0, "s": "m"}],
+    [{"k": "add", "sym": "foo", "scale": 5.0, "dims": "length", "prefixable": True}],
+    [{"k": "add", "sym": "foo", "scale": 5.0, "dims": "mass", "prefixable": True}],
+    [{"k": "add", "sym": "foo", "scale": 2.0, "dims": "length", "prefixable": False}],
+    [{"k": "remove", "sym": "foo"}],
+    [{"k": "remove", "sym": "foo"}, {"k": "add", "sym": "foo", "scale": 7.0, "dims": "length", "prefixable": True}],
+    [{"k": "add", "sym": "kfoo", "scale": 9.0, "dims": "time", "prefixable": False}],
+    [{"k": "define_unit", "sym": "Mfoo", "v": 3.0, "s": "m", "form": "tuple", "prefixable": False}],
+    [{"k": "modify", "sym": "kfoo", "value": 3.0}],
+    [{"k": "remove", "sym": "kfoo"}],
+]
+SWEEP_CHAOS = [None, {"k": "clear_lru", "which": None}, {"k": "restart", "node": 1, "route": "json"}]
+SWEEP_LRU = [128, 1]
+SWEEP_TOTAL = len(SWEEP_WARM) * len(SWEEP_EDITS) * len(SWEEP_PROBE) * len(SWEEP_CHAOS) * len(SWEEP_LRU)
+
+
+def sweep_case(index):
+    i = index % SWEEP_TOTAL
+    i, lru = divmod(i, len(SWEEP_LRU))
+    i, ch = divmod(i, len(SWEEP_CHAOS))
+    i, pr = divmod(i, len(SWEEP_PROBE))
+    i, ed = divmod(i, len(SWEEP_EDITS))
+    wa = i % len(SWEEP_WARM)
+    ops = [{"k": "new_node", "route": "plain"},
+           {"k": "add", "node": 1, "h": 0, "sym": "foo", "scale": 2.0, "dims": "length", "prefixable": True},
+           # a quantity created before the edit: it must keep its value, and converting it afterwards must use
+           # the registry's current contents for the target
+           {"k": "quantity", "node": 1, "h": 0, "v": 2.0, "s": "foo", "route": "ctor", "store": True}]
+    w = SWEEP_WARM[wa]
+    if w is not None:
+        ops.append({"k": w[1], "node": 1, "h": 0, "s": w[0], "v": 1.0, "route": "ctor", "store": False})
+    for e in SWEEP_EDITS[ed]:
+        ops.append(dict(e, node=1, h=0))
+    if SWEEP_CHAOS[ch] is not None:
+        ops.append(dict(SWEEP_CHAOS[ch]))
+    s_, r_ = SWEEP_PROBE[pr]
+    if r_ == "to":
+        ops.append({"k": "to", "x": 0, "s": s_, "how": "to", "store": False})
+    else:
+        ops.append({"k": "unit", "node": 1, "h": 0, "s": s_, "store": False})
+    cfg = {"profile": "C12", "lru": SWEEP_LRU[lru], "syms": ["foo", "kfoo", "Mfoo"], "defsyms": ["m"], "dims": ["length"],
+           "routes": ["plain"], "n_steps": len(ops), "p_store": 0.0, "p_custom": 1.0, "max_nodes": 2, "w_namespace": 0,
+           "end_probe": True, "sweep": True}
+    return ops, cfg
+
+
 def simulate(chan, spec):
-    """Entry point of a run child.  spec: {prop, seed, run, ops?, cfg?}"""
+    """Entry point of a run child.  spec: {prop, seed, run, ops?, cfg?, sweep?}"""
     prop = spec["prop"]
     rng = make_rng(spec["seed"], prop, spec["run"])
+    if spec.get("sweep") is not None and spec.get("ops") is None:
+        ops_s, cfg_s = sweep_case(spec["sweep"])
+        spec = dict(spec, ops=ops_s, cfg=cfg_s)
     cfg = spec.get("cfg") or make_config(rng, prop)
     sim = Sim(chan, cfg, prop)
     ops_in = spec.get("ops")
@@ -1011,6 +1072,7 @@ def simulate(chan, spec):
         "digest": sim.log.hexdigest(), "steps": sim.step_no, "stats": sim.stats, "probes": sim.w.probes,
         "shape": ">".join(sim.shape), "nontrivial": bool(nontrivial), "cold_calls": chan.cold_calls,
         "abstract_state": abstract_state(sim),
+        "extra": {"sweep_cases_run": 1} if cfg.get("sweep") else {},
     }
 
 
